@@ -19,6 +19,7 @@ PROOFS = ['theories/Child/Proofs.v']
 HEADER = 'From PW Require Import Child.Sem Gen.Skel Child.Runs Child.Run.\n'
 
 TARGETS = ['TReturn', 'TRaise', 'TRaiseBase', 'TLoop']
+OBSERVE_MODES = ['wait', 'is_alive', 'join']
 
 
 class Own(Exception):
@@ -201,7 +202,18 @@ def _run_thread(persistent, tgt, plan):
             pass
     if persistent and tgt == 'TReturn':
         w.close()
-    dead = w._child.join(0.4) or not w._child.is_alive()
+    mode = OBSERVE_MODES[len(plan) + (plan[0][0] if plan else 0) % 3 if False else ((plan[0][0] if plan else 0) % 3)]
+    if mode == 'wait' and tgt != 'TLoop':
+        # death observed by wait() itself (for persistent kinds wait() also releases the child)
+        dead = w.wait(0.4 if tgt == 'TLoop' else 3)
+    elif mode == 'is_alive':
+        t0 = time.time()
+        while w.is_alive() and time.time() - t0 < (0.4 if tgt == 'TLoop' else 3):
+            time.sleep(0.005)
+        dead = not w.is_alive()
+    else:
+        w._child.join(0.4 if tgt == 'TLoop' else 3)
+        dead = not w._child.is_alive()
     if not dead:
         # still inside the target: not an observation of a dead worker
         w.terminate(timeout=3)
@@ -290,6 +302,56 @@ def coq_case(kind, persistent, tgt, rebuild, plan_model, ob):
     return f'check_obs {K} {b(persistent)} {tgt} {b(rebuild)} {pl} ({ob})'
 
 
+def handler_lines():
+    """(function name, line) of the `except` handlers of the run loops - the domain of the known finding C03-handler-window"""
+    import ast
+    import inspect
+    import textwrap
+    from pyworkers.thread import ThreadWorker
+    from pyworkers.process import ProcessWorker
+    out = set()
+    for fn in (ThreadWorker._run, ProcessWorker._run):
+        src, first = inspect.getsourcelines(fn)
+        tree = ast.parse(textwrap.dedent(''.join(src)))
+        for n in ast.walk(tree):
+            if isinstance(n, ast.ExceptHandler):
+                for ln in range(n.lineno, n.end_lineno + 1):
+                    out.add(('_run', first + ln - 1))
+    return out
+
+
+def line_labels():
+    """line number -> label for the run loops: from the skeleton translator when it accepts the source,
+    otherwise (the tie is broken then anyway) from the source text, so that the landing sweep still runs."""
+    import gen_skel
+    try:
+        return gen_skel.skeletons(core.REPO)
+    except Exception:
+        pass
+    import inspect
+    import re
+    from pyworkers.thread import ThreadWorker
+    from pyworkers.process import ProcessWorker
+    out = {}
+    for name, fn in (('thread_run', ThreadWorker._run), ('process_run', ProcessWorker._run)):
+        src, first = inspect.getsourcelines(fn)
+        lines = {}
+        for i, text in enumerate(src):
+            t = text.strip()
+            lab = 'Nop'
+            if '_startup_sync.set()' in t and 'StartupDone' not in lines.values():
+                lab = 'StartupDone'
+            elif re.search(r'child_end\.put\(\(self\._pid', t):
+                lab = 'SendInfo'
+            elif 'child_end.put(' in t or 'child_end.send(' in t:
+                lab = 'SendRes'
+            elif 'self.do_work()' in t:
+                lab = 'CallTarget+SetResOk' if t.startswith('self._result') else 'CallTarget'
+            lines[first + i] = lab
+        out[name] = ('', lines, '', first)
+    return out
+
+
 def main(tier, seed, replay=None, prop=PROP):
     logging.disable(logging.CRITICAL)
     core.quiet_stderr(prop)
@@ -312,6 +374,7 @@ def main(tier, seed, replay=None, prop=PROP):
     sys.path.insert(0, core.REPO)
     rnd = random.Random(seed)
     terms, keep = [], []
+    events_of = {}
 
     def record(kind, pers, tgt, rebuild, plan_impl, plan_model, ob, why):
         res.count(f'{kind}:{"persistent" if pers else "one-shot"}'); res.count('target:' + tgt); res.count('obs:' + ob.split()[0])
@@ -333,7 +396,9 @@ def main(tier, seed, replay=None, prop=PROP):
             elif tgt != 'TLoop' and ob not in (own, 'OErr (Some EWTE)'):
                 bad = f'outcome {ob} is neither the target\'s own outcome ({own}) nor WorkerTerminatedError'
         if bad:
-            feats = ['handler-window'] if (single and ob == 'OErr None') else []
+            in_handler = bool(plan_impl) and events_of.get((kind, pers, tgt)) is not None and plan_impl[0][0] < len(events_of[(kind, pers, tgt)]) \
+                and events_of[(kind, pers, tgt)][plan_impl[0][0]] in HANDLER
+            feats = ['handler-window'] if (single and ob == 'OErr None' and tgt in ('TRaise', 'TRaiseBase') and in_handler) else []
             res.violation(dict(kind=kind, persistent=pers, target=tgt, rebuild=rebuild, plan=plan_impl, features=feats), bad, observed=ob,
                           finding_matcher=lambda kf, case: bool(set(kf.get('domain_any_of', [])) & set(case.get('features', []))))
         if ob != 'CtorRaised':
@@ -351,12 +416,13 @@ def main(tier, seed, replay=None, prop=PROP):
         return out
 
     # ---- thread kinds
-    import gen_skel
-    sk = gen_skel.skeletons(core.REPO)
+    sk = line_labels()
+    HANDLER = handler_lines()
     call_lines_thread = {('_run', ln) for ln, lab in sk['thread_run'][1].items() if 'CallTarget+' in lab}
     for pers in (False, True):
         for tgt in TARGETS:
             ob0, why0, ev0 = run_thread(pers, tgt, [])
+            events_of[('thread', pers, tgt)] = ev0
             record('thread', pers, tgt, True, [], [], ob0, why0)
             n = len(ev0) + 2
             sd_lines = {ln for ln, lab in sk['thread_run'][1].items() if lab == 'StartupDone'}
@@ -375,6 +441,7 @@ def main(tier, seed, replay=None, prop=PROP):
             log = os.path.join(scratch, f'dry_{pers}_{tgt}.log')
             ob0, why0 = run_process(pers, tgt, [], log=log)
             ev0 = [(l.split()[1], int(l.split()[2])) for l in open(log)] if os.path.exists(log) else []
+            events_of[('process', pers, tgt)] = ev0
             record('process', pers, tgt, True, [], [], ob0, why0)
             # landing domain: after the runtime info was sent
             info_lines = {ln for ln, lab in sk['process_run'][1].items() if lab == 'SendInfo'}
